@@ -374,7 +374,7 @@ def check_case(case, ctx):
 def gen_case(rng, spec):
     shape = rng.choice(netgen.SHAPES)
     net = netgen.rand_net(rng, shape=shape, max_in=6, max_g=spec.get('max_g', 14), max_arity=spec.get('max_arity', 4),
-                          label_style=rng.choice(['plain', 'plain', 'digits', 'at', 'keyword', 'derived']), p_wide=0.05)
+                          label_style=rng.choice(['plain', 'plain', 'digits', 'at', 'keyword', 'derived', 'odd']), p_wide=0.05)
     return {'kind': 'random', 'shape': shape, 'net': netgen.describe(net), 'rseed': rng.getrandbits(32),
             'shuffle': rng.random() < 0.3}
 
